@@ -56,7 +56,9 @@ Inductive ikind :=
 | IEnum (name : bytes).
 
 (* a field of an inline (anonymous) object / an option of an inline oneof: simple types only *)
-Record sfield := mkSF { sf_name : bytes; sf_kind : ikind; sf_required : bool; sf_optional : bool }.
+Record sfield := mkSF5 { sf_name : bytes; sf_kind : ikind; sf_required : bool; sf_optional : bool;
+                         sf_desc : bytes }.      (* the field's `description` ("" = none) *)
+Notation mkSF n k r o := (mkSF5 n k r o []) (only parsing).
 
 Inductive fkind :=
 | KScalar (ptype : N) (j5kind : bytes)
@@ -76,7 +78,12 @@ Inductive fkind :=
 | KInlineOneof (options : list sfield)
 | KInlineEnum (options : list bytes).
 
-Record ufield := mkU { uf_name : bytes; uf_kind : fkind; uf_required : bool; uf_optional : bool }.
+(* uf_desc: the field's `description` ("" = none): a leading comment of the proto field;
+   uf_keyfmt: the format of a key-typed field (`key` 0, `key:id62` 1, `key:uuid` 2): written into
+   (j5.ext.v1.field).key.format since fix cf354a5; meaningless for other kinds *)
+Record ufield := mkU6 { uf_name : bytes; uf_kind : fkind; uf_required : bool; uf_optional : bool;
+                        uf_desc : bytes; uf_keyfmt : N }.
+Notation mkU n k r o := (mkU6 n k r o [] 0) (only parsing).
 (* a schema declared inside the entity block (entity.Schemas: object / oneof / enum) *)
 Inductive eschema :=
 | SObject (name : bytes) (fields : list ufield)
@@ -126,14 +133,17 @@ Inductive otype :=
 (* the definition an inline field carries: kind (as TNested), fields / options, enum options *)
 Record inline_def := mkInl { il_kind : N; il_fields : list sfield; il_options : list bytes }.
 
-Record ofield := mkF11 {
+Record ofield := mkF13 {
   f_json : bytes; f_type : otype; f_repeated : bool; f_required : bool; f_flatten : bool;
   f_primary : bool; f_tenant : option bytes;
   f_filter : option (list bytes);     (* list filtering: Some defaults = filterable *)
   f_foreign : option (bytes * bytes); (* (j5.ext.v1.key).foreign_key {package, entity} *)
   f_optional : bool;                  (* proto3_optional *)
-  f_inline : option inline_def }.     (* Some: the field's type is defined inline, nested in the message *)
-Notation mkF10 j t r q fl p te fi fo o := (mkF11 j t r q fl p te fi fo o None) (only parsing).
+  f_inline : option inline_def;       (* Some: the field's type is defined inline, nested in the message *)
+  f_desc : bytes;                     (* the description, as declared *)
+  f_keyfmt : N }.                     (* (j5.ext.v1.field).key.format: 0 none, 1 FORMAT_ID62, 2 FORMAT_UUID *)
+Notation mkF11 j t r q fl p te fi fo o il := (mkF13 j t r q fl p te fi fo o il [] 0) (only parsing).
+Notation mkF10 j t r q fl p te fi fo o := (mkF13 j t r q fl p te fi fo o None [] 0) (only parsing).
 (* the fields entity.go itself creates have no foreign key and are never optional *)
 Definition mkF j t r q fl p te fi : ofield := mkF10 j t r q fl p te fi None false.
 
@@ -189,38 +199,44 @@ Definition otype_of_item (i : ikind) : otype :=
   end.
 
 Definition of_sfield (s : sfield) : ofield :=
-  mkF10 (sf_name s) (otype_of_item (sf_kind s)) false (sf_required s) false false None None None (sf_optional s).
+  mkF13 (sf_name s) (otype_of_item (sf_kind s)) false (sf_required s) false false None None None (sf_optional s)
+        None (sf_desc s) 0.
 
 Definition of_ufield (u : ufield) : ofield :=
+  let d := uf_desc u in
   match uf_kind u with
   | KInlineObject fs =>
-      mkF11 (uf_name u) (TNested (to_camel (uf_name u)) 0) false (uf_required u) false false None None None
-            (uf_optional u) (Some (mkInl 0 fs []))
+      mkF13 (uf_name u) (TNested (to_camel (uf_name u)) 0) false (uf_required u) false false None None None
+            (uf_optional u) (Some (mkInl 0 fs [])) d 0
   | KInlineOneof fs =>
-      mkF11 (uf_name u) (TNested (to_camel (uf_name u)) 1) false (uf_required u) false false None None None
-            (uf_optional u) (Some (mkInl 1 fs []))
+      mkF13 (uf_name u) (TNested (to_camel (uf_name u)) 1) false (uf_required u) false false None None None
+            (uf_optional u) (Some (mkInl 1 fs [])) d 0
   | KInlineEnum os =>
-      mkF11 (uf_name u) (TNested (to_camel (uf_name u)) 2) false (uf_required u) false false None None None
-            (uf_optional u) (Some (mkInl 2 [] os))
+      mkF13 (uf_name u) (TNested (to_camel (uf_name u)) 2) false (uf_required u) false false None None None
+            (uf_optional u) (Some (mkInl 2 [] os)) d 0
   | KExt tn k =>
-      mkF10 (uf_name u) (TExt tn k) false (uf_required u) false false None None None (uf_optional u)
+      mkF13 (uf_name u) (TExt tn k) false (uf_required u) false false None None None (uf_optional u) None d 0
   (* an explicitly optional array / map is NOT proto3_optional (fix d536c9b, buildProperty: a repeated
      field cannot be the member of a synthetic oneof); the optional+required clash is still checked *)
   | KArray i =>
-      mkF10 (uf_name u) (otype_of_item i) true (uf_required u) false false None None None false
+      mkF13 (uf_name u) (otype_of_item i) true (uf_required u) false false None None None false None d 0
   | KMap v =>
-      mkF10 (uf_name u) (TMap (otype_of_item v)) true (uf_required u) false false None None None false
+      (* for a map of keys, f_keyfmt is the format of the VALUE field of the entry message *)
+      mkF13 (uf_name u) (TMap (otype_of_item v)) true (uf_required u) false false None None None false None d
+            (uf_keyfmt u)
   | KScalar pt k =>
-      mkF10 (uf_name u) (TScalar pt k) false (uf_required u) false false None None None (uf_optional u)
+      (* a key-typed scalar that is not an entity key declaration (`data x key:id62`) carries its format too *)
+      mkF13 (uf_name u) (TScalar pt k) false (uf_required u) false false None None None (uf_optional u) None d
+            (uf_keyfmt u)
   | KObject n =>
-      mkF10 (uf_name u) (TObject [] n) false (uf_required u) false false None None None (uf_optional u)
+      mkF13 (uf_name u) (TObject [] n) false (uf_required u) false false None None None (uf_optional u) None d 0
   | KOneof n =>
-      mkF10 (uf_name u) (TOneof [] n) false (uf_required u) false false None None None (uf_optional u)
+      mkF13 (uf_name u) (TOneof [] n) false (uf_required u) false false None None None (uf_optional u) None d 0
   | KEnum n =>
-      mkF10 (uf_name u) (TEnum [] n) false (uf_required u) false false None None None (uf_optional u)
+      mkF13 (uf_name u) (TEnum [] n) false (uf_required u) false false None None None (uf_optional u) None d 0
   | KKey primary foreign tenant =>
-      mkF10 (uf_name u) (TScalar 9 (bs "key")) false (uf_required u || primary) false primary tenant None
-            foreign (uf_optional u)
+      mkF13 (uf_name u) (TScalar 9 (bs "key")) false (uf_required u || primary) false primary tenant None
+            foreign (uf_optional u) None d (uf_keyfmt u)
   end.
 (* buildProperty: "cannot be both required and optional" (a primary key is required) *)
 Definition sfield_ok (s : sfield) : bool := negb (sf_optional s && sf_required s).
